@@ -32,7 +32,7 @@ def m_complex(z, degree=False):
         return complex(z["real"], z["imag"])
     if isinstance(z, dict) and "abs" in z and "phase" in z:
         ph = z["phase"] * math.pi / 180 if degree else z["phase"]
-        return complex(z["abs"] * math.cos(ph), z["abs"] * math.sin(ph))
+        return Approx(z["abs"] * math.cos(ph), z["abs"] * math.sin(ph))
     raise ModelRaises("not a complex notation")
 
 
@@ -87,6 +87,16 @@ CIR_KINDS = {
     "complex_current_source": lambda v: {"I_real": complex(v["I"]).real, "I_imag": complex(v["I"]).imag,
                                          "G": complex(v.get("Y", 0)).real, "B": complex(v.get("Y", 0)).imag},
 }
+
+
+def _agree(got, exp):
+    """what came through cos/sin is compared with a tolerance, everything else must be the given number exactly"""
+    if isinstance(exp, Approx):
+        return _close(got, exp)
+    try:
+        return _exact(got, exp)
+    except (TypeError, ValueError):
+        return got == exp
 
 
 def _close(a, b, tol=MODEL_TOL):
@@ -203,7 +213,7 @@ def model_load_network(ctx, a, res, rec):
                 return _viol("wrong-identity", f"{(b.node1, b.node2, b.id)} != {(n1, n2, i)}")
             for attr, v in q.items():
                 got = getattr(b.element, attr)
-                if not _close(got, v):
+                if not _agree(got, v):
                     return _viol("wrong-value", f"{i}.{attr}: {got!r} != {v!r}")
     except (AttributeError, TypeError) as e:
         # the loader returned something that is not a network of branches with elements
@@ -225,7 +235,7 @@ def model_to_complex(ctx, a, res, rec):
         return _unjudged(rec, res)
     if isinstance(res, BaseException):
         return _viol("load-failed", f"to_complex({z}, degree={a.get('degree', False)}) raised {type(res).__name__}")
-    if not _close(res, exp):
+    if not _agree(res, exp):
         return _viol("wrong-value", f"to_complex({z}, degree={a.get('degree', False)}) = {res!r}, expected {exp!r}")
     return None
 
@@ -480,9 +490,18 @@ def ld_deserialize(ctx, a, seam):
     return dl.deserialize(text, a["fmt"])
 
 
+def _plain(v):
+    """plain dict/list copy (the foreign writer is not the library: it writes ordinary text)"""
+    if isinstance(v, dict):
+        return {k: _plain(x) for k, x in v.items()}
+    if isinstance(v, list):
+        return [_plain(x) for x in v]
+    return v
+
+
 def _foreign_text(ctx, a):
     """text written by somebody else (the harness): json.dumps / yaml.safe_dump of a notation-form document"""
-    doc = _fresh(ctx, a["text"]["foreign"])
+    doc = _plain(_fresh(ctx, a["text"]["foreign"]))
     if a["fmt"] == "json":
         return json.dumps(doc, ensure_ascii=a.get("ascii", False))
     import yaml
@@ -563,7 +582,7 @@ def model_put(ctx, a, res, rec):
 @op("fs.put", model=model_put)
 def fs_put(ctx, a, seam):
     """a foreign writer (not the library) stores a document as JSON text on the simulated device"""
-    doc = _fresh(ctx, a["doc"])
+    doc = _plain(_fresh(ctx, a["doc"]))
     data = json.dumps(doc, ensure_ascii=a.get("ascii", False), indent=a.get("indent")).encode("utf-8")
     ctx.disk.files[a["path"]] = bytearray(data)
     ctx.disk.touch(a["path"])
